@@ -156,6 +156,27 @@ def engine_quirk(ex, case, ref=None):
     return None
 
 
+def polars_null_compare_in_agg_quirk(case):
+    """Polars 1.44 lowers a comparison with a null literal (`x == None`, also inside the library's is_in) to
+    `null.repeat(len())`; inside group_by().agg() / over() that is not aligned with the group's rows and e.g. a
+    sort_by by such a key mixes values of different groups (reproduced with plain Polars, DESIGN 4.15 k).  Shape: an
+    aggregate / window function whose arguments or context arguments contain a comparison with a null literal."""
+    from .ir import AGG_OPS, WIN_OPS, step_exprs, walk_expr
+
+    def has_null_cmp(e):
+        return any(nd[0] == "fn" and nd[1] in ("eq", "ne", "lt", "le", "gt", "ge", "is_in") and any(
+            a[0] == "lit" and a[1] is None for a in nd[2]) for nd in walk_expr(e))
+
+    exprs = [e for s in case.get("steps", []) for e in step_exprs(s)]
+    if isinstance(case.get("expr"), dict) and "expr" in case["expr"]:
+        exprs.append(case["expr"]["expr"])
+    for e in exprs:
+        for nd in walk_expr(e):
+            if nd[0] == "fn" and nd[1] in (AGG_OPS | WIN_OPS) and has_null_cmp(nd):
+                return True
+    return False
+
+
 def polars_agg_list_quirk(case, df):
     """Polars 1.44: inside group_by().agg() a combination of already aggregated values that contains a when/then over
     literals (the library's floor division / modulo sign correction) is returned as one list per group instead of a scalar
@@ -341,6 +362,11 @@ def examine_pipeline(case, out: Outcome, *, backends=("polars", "sqlite"), ref_c
                 if kind == "polars" and polars_agg_list_quirk(run.case2, df):
                     out.count("engine_quirk:polars_agg_returns_list")
                     run.frames.pop((kind, rv), None)
+                    continue
+                if kind == "polars" and polars_null_compare_in_agg_quirk(run.case2):
+                    out.count("engine_quirk:polars_null_compare_in_agg")
+                    run.frames.pop((kind, rv), None)
+                    run.prefix_quirk = run.prefix_quirk or "polars_null_compare_in_agg"
                     continue
                 if kind == "polars" and _noopt_agrees(b.vars[rv], lambda d: oracle.compare_ref(run.ref.vars[rv], d, view=view)):
                     out.count("engine_quirk:polars_optimizer")
